@@ -12,9 +12,13 @@ def cif2_char_ok(c):
     o = ord(c)
     if o in (9, 10):
         return True
-    if o < 32 or o == 127 or 0xD800 <= o <= 0xDFFF or 0xFDD0 <= o <= 0xFDEF or (o & 0xFFFE) == 0xFFFE or o == 0xFEFF:
+    if o < 32 or 127 <= o < 160 or 0xD800 <= o <= 0xDFFF or 0xFDD0 <= o <= 0xFDEF or (o & 0xFFFE) == 0xFFFE or o == 0xFEFF:
         return False
     return True
+
+
+CHAR_BOUNDS = [0x01, 0x08, 0x09, 0x0B, 0x0C, 0x0E, 0x1F, 0x20, 0x7E, 0x7F, 0x80, 0x85, 0x9F, 0xA0, 0xFF, 0x100, 0x2028, 0xD7FF, 0xE000, 0xFDCF, 0xFDD0, 0xFDEF, 0xFDF0,
+               0xFEFF, 0xFFFD, 0xFFFE, 0xFFFF, 0x10000, 0x1FFFD, 0x1FFFE, 0x1FFFF, 0x10FFFD, 0x10FFFF]
 
 
 def proj_to_content(state):
@@ -254,6 +258,12 @@ def run_roundtrip(prop, ver, tier):
             nm = ["_l%d" % j + (ch if j == k else "") for j in range(3)]
             cases.append(("name:%s@loop-%d-of-3" % (tag, k + 1), base + [{"op": "set_value", "cont": "h", "name": "_s", "v": one}, {"op": "create_loop", "cont": "h", "category": "k", "names": nm, "h": "l"},
                           {"op": "loop_add_packet", "loop": "l", "packet": [[n, one] for n in nm]}, {"op": "loop_add_packet", "loop": "l", "packet": [[n, {"k": "char", "t": "v", "q": 1}] for n in nm]}]))
+    # (d) string values holding one character at the boundaries of the character classes (CIF 1.1: HT LF CR and
+    # U+0020..U+007E; CIF 2.0: no C0 controls but HT LF CR, no DEL, no surrogates, no noncharacters, no U+FEFF inside), in
+    # the two kinds of value presentation (one line, several lines)
+    for cp in CHAR_BOUNDS:
+        for form, t in (("line", "a%sb" % chr(cp)), ("text", "a%sb\nc d" % chr(cp))):
+            cases.append(("char:%04X/%s@scalar" % (cp, form), api_case(t, "scalar", 0)))
     results = run_cases(binary, cases, ver)
     recs, owners = [], []
     for label, build_cmds, o, err in results:
